@@ -382,6 +382,12 @@ impl<'a> Socket<'a> {
                 });
             }
             (ClientState::Requesting(state), DhcpMessageType::Ack) => {
+                // DISCOVER and REQUEST share the transaction id: an ACK can only answer a
+                // REQUEST that has been sent.
+                if state.retry == 0 {
+                    net_debug!("DHCP ignoring ACK because no REQUEST has been sent yet");
+                    return;
+                }
                 if let Some((config, renew_at, rebind_at, expires_at)) =
                     Self::parse_ack(cx.now(), &dhcp_repr, self.max_lease_duration, state.server)
                 {
